@@ -159,6 +159,30 @@ static void matrix_case(rng_t *r) {
     uint8_t *expect = malloc(total);
     int nwrites = 100 + (int)rng_below(r, 400);
     g_kind[k]++;
+    if (rows >= 2 && rng_chance(r, 1, 3)) {
+        /* history: the same buffer previously held another matrix of the same header width class but a different
+         * column count (accessed at row > 0), and was then overwritten byte-wise (as when loading a saved matrix) */
+        size_t cols2 = cols - 1; /* never larger: the previous matrix must fit the same buffer */
+        if (cols2 >= 1 && ref_bytes_needed(cols2) == ref_bytes_needed(cols)) {
+            uint8_t *saved = malloc(total);
+            memcpy(saved, gb.p, total);
+            varintDimensionPair d2 = varintDimensionPairEncode(gb.p, rows, cols2);
+            g_ctx = "previous-matrix-in-same-buffer";
+            if (k == K_BIT) {
+                (void)varintDimensionPairEntryGetBit(gb.p, 1, 0, d2);
+            } else if (k == K_FLOAT) {
+                (void)varintDimensionPairEntryGetFloat(gb.p, 1, 0, d2);
+            } else if (k == K_DOUBLE) {
+                (void)varintDimensionPairEntryGetDouble(gb.p, 1, 0, d2);
+            } else if (k != K_HALF) {
+                (void)varintDimensionPairEntryGetUnsigned(gb.p, 1, 0, (varintWidth)w, d2);
+                varintDimensionPairEntrySetUnsigned(gb.p, rows - 1, 0, 1, (varintWidth)w, d2);
+            }
+            memcpy(gb.p, saved, total); /* header and cells replaced without going through Encode */
+            free(saved);
+            STAT_INC("c10_buffer_reuse_histories");
+        }
+    }
     for (int t = 0; t < nwrites; t++) {
         size_t row, col;
         switch (rng_below(r, 6)) {
@@ -283,6 +307,7 @@ static void matrix_case(rng_t *r) {
 /* column widths 5..8: a lazily mapped bit vector of more than 2^32 columns */
 static void wide_bit_vector_case(rng_t *r) {
     size_t cols = (1ULL << 32) + rng_below(r, 1ULL << 31);
+    if (rng_chance(r, 1, 2)) cols = (1ULL << 35) + rng_below(r, 1ULL << 35); /* more than 4 GiB of bits */
     size_t hl = (size_t)ref_bytes_needed(cols);
     size_t total = hl + (cols + 7) / 8;
     uint8_t *m = mmap(NULL, total, PROT_READ | PROT_WRITE, MAP_PRIVATE | MAP_ANONYMOUS | MAP_NORESERVE, -1, 0);
@@ -311,6 +336,14 @@ static void wide_bit_vector_case(rng_t *r) {
             DFAIL("varintDimensionPairEntrySetBit", "read-back-differs-from-written", "%s (set false)", g_sub);
             break;
         }
+        g_ctx = "varintDimensionPairEntryToggleBit";
+        bool prev = varintDimensionPairEntryToggleBit(m, 0, col, d);
+        if (prev || !((m[byte] >> bit) & 1) || !varintDimensionPairEntryGetBit(m, 0, col, d) || memcmp(h2, m, hl)) {
+            DFAIL("varintDimensionPairEntryToggleBit", memcmp(h2, m, hl) ? "changed-header-byte" : "read-back-differs-from-written", "%s (toggle)", g_sub);
+            break;
+        }
+        varintDimensionPairEntryToggleBit(m, 0, col, d);
+        if (col / 8 > 0xffffffffULL) STAT_INC("c10_wide_vector_writes_beyond_4GiB");
         STAT_INC("c10_wide_vector_writes");
     }
     g_sub[0] = 0;
